@@ -350,4 +350,125 @@ theorem tiny_underflows {c : FC} {F : Fmt} (h : FCok c F) (N L : Nat) (E : Int) 
     _ ≤ 10 ^ L * 10 ^ 401 * 10 ^ j := Nat.le_mul_of_pos_right _ (Nat.pos_of_ne_zero (by simp))
     _ = 10 ^ (-E).toNat := by rw [hj, Nat.pow_add, Nat.pow_add]; ring
 
+/-! ## binary64: both sides as "signed pattern or out of range" -/
+
+theorem xor_eq_or_of_disjoint (a b : Nat) (h : a &&& b = 0) : a ^^^ b = a ||| b := by
+  apply Nat.eq_of_testBit_eq
+  intro i
+  have := congrArg (fun x => x.testBit i) h
+  simp only [Nat.testBit_and, Nat.zero_testBit] at this
+  rw [Nat.testBit_xor, Nat.testBit_or]
+  cases ha : a.testBit i <;> cases hb : b.testBit i <;> simp_all
+
+/-- flipping the sign bit of a positive pattern -/
+theorem neg_ofNat (R : Nat) (hR : R < 2 ^ 63) :
+    SJ.Spec.Ieee.F64.neg (UInt64.ofNat R) = UInt64.ofNat (b64.signBit + R) := by
+  have hs := SJ.Proofs.LexBridge.sign_or true R hR
+  simp only [if_true] at hs
+  rw [← hs]
+  unfold SJ.Spec.Ieee.F64.neg SJ.Spec.Ieee.signBit
+  simp only [if_true]
+  apply UInt64.toNat_inj.1
+  rw [UInt64.toNat_xor, UInt64.toNat_or]
+  have h1 : (0x8000000000000000 : UInt64).toNat = 2 ^ 63 := by decide
+  have h2 : (UInt64.ofNat R).toNat = R := by rw [UInt64.toNat_ofNat']; exact Nat.mod_eq_of_lt (by omega)
+  rw [h1, h2, Nat.or_comm]
+  apply xor_eq_or_of_disjoint
+  apply Nat.eq_of_testBit_eq
+  intro i
+  rw [Nat.testBit_and, Nat.testBit_two_pow, Nat.zero_testBit]
+  by_cases hi : 63 = i
+  · subst hi; rw [Nat.testBit_lt_two_pow hR]; simp
+  · simp [hi]
+
+/-- the common normal form of both sides for an `f64` target -/
+def finish64 (neg : Bool) (R : Nat) : NRes :=
+  if R < b64.infBits then .f64 (UInt64.ofNat (if neg then b64.signBit + R else R)) else .outOfRange
+
+theorem infBits64_lt : b64.infBits < 2 ^ 63 := by decide
+
+theorem finishFloat64 (positive : Bool) (R : Nat) :
+    finishFloat false positive (clampInf b64 R) = finish64 (!positive) R := by
+  have h := fcok64
+  unfold finishFloat finish64
+  have hfc : fc false = f64Consts := rfl
+  rw [hfc, isInf_iff h _ (clampInf_le _ _)]
+  by_cases hR : R < b64.infBits
+  · have hc : clampInf b64 R = R := by unfold clampInf; rw [if_pos hR]
+    rw [hc, if_pos hR]
+    have hne : ¬ (R = b64.infBits) := by omega
+    simp only [hne, decide_false, Bool.false_eq_true, if_false]
+    cases positive
+    · simp only [Bool.not_false, if_true, Bool.false_eq_true, if_false]
+      rw [neg_ofNat R (by have := infBits64_lt; omega)]
+    · simp
+  · have hc : clampInf b64 R = b64.infBits := by unfold clampInf; rw [if_neg hR]
+    rw [hc, if_neg hR]
+    simp
+
+theorem signBit_eq (neg : Bool) : SJ.Spec.Ieee.signBit neg = UInt64.ofNat (if neg then b64.signBit + 0 else 0) := by
+  cases neg <;> decide
+
+theorem roundBits_cases (neg : Bool) (n d : Nat) :
+    (roundBits b64 neg n d = none ∧ finish64 neg (roundMag b64 (n * 2 ^ b64.qexp) d) = .outOfRange) ∨
+    (∃ x, roundBits b64 neg n d = some x ∧ finish64 neg (roundMag b64 (n * 2 ^ b64.qexp) d) = .f64 (UInt64.ofNat x)) := by
+  unfold roundBits finish64
+  generalize roundMag b64 (n * 2 ^ b64.qexp) d = r
+  by_cases hr : r < b64.infBits
+  · right; exact ⟨(if neg = true then b64.signBit + r else r), by simp only [hr, if_true], by simp only [hr, if_true]⟩
+  · left; exact ⟨by simp only [hr, if_false], by simp only [hr, if_false]⟩
+
+/-- `convertRoundtrip.conv` in the same normal form -/
+theorem conv64_eq (p : Parts) (hN : litN p ≠ 0) :
+    convertRoundtrip.conv p = finish64 p.neg (roundMag b64 (dNum b64 (litN p) (litE p)) (dDen (litE p))) := by
+  have h := fcok64
+  have hNpos : 0 < litN p := Nat.pos_of_ne_zero hN
+  obtain ⟨db1, db2⟩ := digits_bounds (litN p) hNpos
+  have hLpos : 1 ≤ (toString (litN p)).length := by
+    have e : toString (litN p) = (litN p).repr := rfl
+    rw [e]; exact @Nat.length_repr_pos (litN p)
+  unfold convertRoundtrip.conv
+  rw [exact_eq]
+  have hb : (litN p == 0) = false := by simpa using hN
+  simp only [hb, Bool.false_eq_true, if_false]
+  by_cases hh : litE p + ((toString (litN p)).length : Int) > 400
+  · rw [if_pos hh]
+    have := huge_overflows h (litN p) _ (litE p) db1 hLpos hh
+    simp only []
+    unfold finish64
+    rw [if_neg (by omega)]
+  · rw [if_neg hh]
+    by_cases ht : litE p + ((toString (litN p)).length : Int) < -400
+    · rw [if_pos ht]
+      have := tiny_underflows h (litN p) _ (litE p) db2 ht
+      simp only []
+      unfold finish64
+      rw [this, if_pos (by have := infBits64_lt; unfold Fmt.infBits b64; norm_num), signBit_eq]
+    · rw [if_neg ht]
+      by_cases hE : litE p ≥ 0
+      · rw [if_pos hE]
+        simp only []
+        rw [SJ.Proofs.LexBridge.roundNE64_bridge _ _ _ Nat.one_pos]
+        have e2 : dDen (litE p) = 1 := by
+          unfold dDen
+          have : (-(litE p)).toNat = 0 := by omega
+          rw [this]; rfl
+        have e1 : dNum b64 (litN p) (litE p) = litN p * 10 ^ (litE p).toNat * 2 ^ b64.qexp := rfl
+        rw [e1, e2]
+        rcases roundBits_cases p.neg (litN p * 10 ^ (litE p).toNat) 1 with ⟨h1, h2⟩ | ⟨x, h1, h2⟩
+        · rw [h1, h2]; rfl
+        · rw [h1, h2]; rfl
+      · rw [if_neg hE]
+        simp only []
+        rw [SJ.Proofs.LexBridge.roundNE64_bridge _ _ _ (Nat.pos_of_ne_zero (by simp))]
+        have e1 : dNum b64 (litN p) (litE p) = litN p * 2 ^ b64.qexp := by
+          unfold dNum
+          have : (litE p).toNat = 0 := by omega
+          rw [this, Nat.pow_zero, Nat.mul_one]
+        have e2 : dDen (litE p) = 10 ^ (-(litE p)).toNat := rfl
+        rw [e1, e2]
+        rcases roundBits_cases p.neg (litN p) (10 ^ (-(litE p)).toNat) with ⟨h1, h2⟩ | ⟨x, h1, h2⟩
+        · rw [h1, h2]; rfl
+        · rw [h1, h2]; rfl
+
 end SJ.Proofs.LexCorrect
